@@ -292,6 +292,12 @@ impl<T: Ty, L: LinkType> Gold<T, L> {
     fn safe(&self) -> Vec<(u64, u64)> { self.0.iter_with_strategy(IterationStrategy::Safe).map(|(k, v)| (T::kb(k), T::vb(v))).collect() }
 }
 impl<T: Ty, L: LinkType> Mut for Gold<T, L> {
+    // GoldHashMap hashes with std's DefaultHasher (fixed keys)
+    fn key_hash(&self, k: u64) -> Option<u64> {
+        let mut h = std::collections::hash_map::DefaultHasher::new();
+        T::k(self.1, k).hash(&mut h);
+        Some(h.finish())
+    }
     fn canon_k(&self, k: u64) -> u64 { T::kb(&T::k(self.1, k)) }
     fn canon_v(&self, v: u64) -> u64 { T::vb(&T::v(v)) }
     fn insert(&mut self, k: u64, v: u64) -> Option<R<Option<u64>>> { Some(self.0.insert(T::k(self.1, k), T::v(v)).map(|o| o.map(|x| T::vb(&x))).map_err(estr)) }
